@@ -1,6 +1,8 @@
 package props
 
 import (
+	"encoding/json"
+	"fmt"
 	"time"
 
 	"verif/harness/internal/mc"
@@ -45,12 +47,29 @@ func registerCheck(c *CheckDef) {
 	Checks[c.Prop] = c
 }
 
-// ReplayCustom re-runs a stored counterexample of a non-E1 check.
-var customReplays = map[string]func(raw interface{}) int{}
-
-func ReplayCustom(prop string, raw interface{}) int {
-	if f := customReplays[prop]; f != nil {
-		return f(raw)
+// ReplayCustom re-runs the (deterministic) enumeration of a non-E1 check and looks for the stored counterexample.
+func ReplayCustom(prop, fp, tier string, raw interface{}) int {
+	def := Checks[prop]
+	if def == nil || def.Custom == nil {
+		fmt.Println("no custom check for", prop)
+		return 2
 	}
-	return 2
+	want, _ := json.Marshal(raw)
+	cr := def.Custom(tier, 0)
+	for _, f := range cr.Violations {
+		got, _ := json.Marshal(f.Custom)
+		if f.Viol.FP == fp && string(got) == string(want) {
+			fmt.Printf("violation: %s %s: %s\ninput: %s\nREPRODUCED\n", f.Viol.Prop, f.Viol.Rule, f.Viol.Detail, got)
+			return 1
+		}
+	}
+	for _, f := range cr.Violations {
+		if f.Viol.FP == fp {
+			got, _ := json.Marshal(f.Custom)
+			fmt.Printf("violation with the same fingerprint: %s %s: %s\ninput: %s\nREPRODUCED (same class)\n", f.Viol.Prop, f.Viol.Rule, f.Viol.Detail, got)
+			return 1
+		}
+	}
+	fmt.Println("not reproduced")
+	return 0
 }
